@@ -22,11 +22,20 @@ var c05VBs = []ivg.ViewBox{ivg.DefaultViewBox, {MinX: 0, MinY: 0, MaxX: 48, MaxY
 var c05Tuples = [3][6]float32{{3, -5, 7.5, 2.25, -4, 6}, {-2.5, 4, 1, -6.5, 8, 0.5}, {1000.5, -0.001953125, -4096, 300, 0.015625, -77.25}}
 
 // letters: the 18 non-arc verbs + Y + y, each with two argument tuples
+var c05QuickLetters int
+
 var c05Letters = func() []rec.Call {
 	var ls []rec.Call
 	for t := 0; t < 3; t++ { // the third tuple (large and tiny magnitudes) is used by the thorough tier only
 		for m := rec.MAbsMove; m <= rec.MRelC; m++ {
 			ls = append(ls, rec.Call{M: m, A: c05Tuples[t]})
+		}
+		if t == 1 {
+			// zero-length relative lines: still one LineTo each, and a smooth operation after them
+			// uses the pen
+			negZero := float32(math.Copysign(0, -1))
+			ls = append(ls, rec.Call{M: rec.MRelL}, rec.Call{M: rec.MRelH, A: [6]float32{negZero}}, rec.Call{M: rec.MRelV})
+			c05QuickLetters = len(ls)
 		}
 	}
 	return ls
@@ -49,7 +58,7 @@ func c05Depth(tier string) int {
 
 func init() {
 	nlAll := len(c05Letters)
-	nlQuick := nlAll * 2 / 3
+	nlQuick := c05QuickLetters
 	nlOf := func(tier string) int {
 		if tier == "thorough" {
 			return nlAll
@@ -117,11 +126,11 @@ func (st *c05State) runs() {
 	for vb := range c05VBs {
 		for r := range c05Rects {
 			for l := range c05Letters {
-				if !st.w.Thorough && l >= len(c05Letters)*2/3 {
+				if !st.w.Thorough && l >= c05QuickLetters {
 					break
 				}
 				st.check(&c05Case{VB: vb, Rect: r, Letters: []int{l}, Reps: 33})
-				st.check(&c05Case{VB: vb, Rect: r, Letters: []int{l, (l + 7) % (len(c05Letters) * 2 / 3)}, Reps: 17})
+				st.check(&c05Case{VB: vb, Rect: r, Letters: []int{l, (l + 7) % c05QuickLetters}, Reps: 17})
 			}
 		}
 	}
@@ -141,10 +150,19 @@ func (st *c05State) check(cs *c05Case) {
 	m := ref.NewMap(vb, rect)
 	var z render.Renderer
 	st.ras.ResetLog()
-	z.SetRasterizer(&st.ras, rect)
+	// (the target is configured twice: first another rectangle, and the final one only after Reset)
+	z.SetRasterizer(&st.ras, image.Rect(2, 1, 2+rect.Dy()+3, 1+rect.Dx()+9))
 	// the Renderer was used before for a graphic whose viewBox has the same extent but another origin
 	z.Reset(ivg.ViewBox{MinX: vb.MinX + 5, MinY: vb.MinY - 3, MaxX: vb.MaxX + 5, MaxY: vb.MaxY - 3}, ivg.DefaultPalette)
 	z.Reset(vb, ivg.DefaultPalette)
+	// ... and the judged path is the second path of its graphic: the first one ended on curves
+	// (nothing of it - pen, control points, sub-path start - carries over into the next path)
+	z.StartPath(0, vb.MinX+1, vb.MinY+1)
+	z.AbsQuadTo(2, 3, 4, 5)
+	z.RelCubeTo(1, 2, 3, 4, 5, 6)
+	z.ClosePathEndPath()
+	z.SetRasterizer(&st.ras, rect)
+	st.ras.ResetLog()
 	reps := cs.Reps
 	if reps == 0 {
 		reps = 1
